@@ -448,3 +448,9 @@ def proof_coverage(res, theorems, modules, extra_obligations=0, extra_discharged
 
 def rng_for(tag):
     return random.Random('%d/%s' % (SEED, tag))
+
+
+def known_findings(pid):
+    with open(os.path.join(ROOT, 'known_findings.json')) as f:
+        data = json.load(f)
+    return [k for k in data['findings'] if k['property'] == pid and k['status'] == 'open']
